@@ -1,6 +1,8 @@
 SPECIFICATION Spec
 CONSTANTS
   KeyMode = "perthread"
+  CacheShared = FALSE
+  WithConvs = FALSE
   MaxOps = 6
 INVARIANT Isolated
 VIEW StateView
